@@ -126,6 +126,9 @@ def interleaved_compiles(jobs, seed, permille, options_for, share_list):
     rng = random.Random(seed)
     n = len(jobs)
     gates = [threading.Semaphore(0) for _ in range(n)]
+    parked = [threading.Event() for _ in range(n)]
+    all_done = threading.Event()
+    finished = threading.Semaphore(0)
     done = [False] * n
     out = [None] * n
     state = {"cur": 0, "switches": 0}
@@ -152,6 +155,7 @@ def interleaved_compiles(jobs, seed, permille, options_for, share_list):
         return prof
 
     def worker(me):
+        parked[me].set()
         if not gates[me].acquire(timeout=600):
             os._exit(41)
         (req, objs, ns), lang = jobs[me]
@@ -171,11 +175,21 @@ def interleaved_compiles(jobs, seed, permille, options_for, share_list):
             if nxt is not None:
                 state["cur"] = nxt
                 gates[nxt].release()
+            finished.release()
+            # threads leave together at the very end: the tear-down of one thread must not
+            # overlap the run of the next (heap layout is part of the determinism witness)
+            all_done.wait(600)
 
     threads = [threading.Thread(target=worker, args=(i,), name=f"tcompile-{i}") for i in range(n)]
-    for t in threads:
+    for i, t in enumerate(threads):
         t.start()
+        if not parked[i].wait(600):  # one at a time: thread start-up code allocates too
+            os._exit(41)
     gates[0].release()
+    for _ in threads:
+        if not finished.acquire(timeout=3000):
+            os._exit(41)
+    all_done.set()
     for t in threads:
         t.join()
     return {"out": out, "switches": state["switches"]}
